@@ -265,7 +265,7 @@ def run(ctx):
       asg = [list(a) for a in s["asg"]]
       family.append((shape, asg))
   ctx.count("family_documents_enumerated", len(family))
-  limit = None if thorough else 1400
+  limit = None if thorough else 2400
   if thorough and len(family) > 60000:
     limit = 60000
   if limit is not None and len(family) > limit:
@@ -273,7 +273,7 @@ def run(ctx):
   items = [(k, sh, asg) for k, (sh, asg) in enumerate(family)]
 
   # ---- 2. run the implementation ------------------------------------------------------------------------
-  nrich = 20000 if thorough else 260
+  nrich = 20000 if thorough else 400
   ncorrupt = 3
   chunks = [items[k:k + 100] for k in range(0, len(items), 100)]
   per = 20
